@@ -6,7 +6,7 @@ from .common import Acc, result, search_result, world_contacts
 
 ID = "C11"
 LEAN_MODULES = ["MjwVerif.Props.C11", "MjwVerif.Props.C11Rows"]
-GEN_FUNCS = ["forward._actuator_velocity"]
+GEN_FUNCS = ["forward._actuator_velocity", "forward._qfrc_actuator"]
 NEEDS_DRIVER = False
 LEVEL_TEXT = ("(1) Metatheorem SI-sched (Lean): tasks of one launch with pairwise independent footprints produce the same memory under EVERY permutation; commutative accumulations (atomic add/"
               "min/max/or) and slot allocation counters are order independent. (2) Kernel-`decide`d on the access table regenerated from every kernel of /repo on every run: the COMPLETE list of "
